@@ -4,7 +4,7 @@ SEEDS="${1:-1 2 3 4 5}"; shift
 IDS="${*:-C01 C02 C03 C04 C05 C06 C07 C08 C09 C10 C11 C12 C13 C14 C15 C16 C17 C18 C19}"
 mkdir -p /tmp/mut/sweep/{evidence,replays,regressions}; cp /verif/known_findings.jsonl /tmp/mut/sweep/; cp /verif/regressions/* /tmp/mut/sweep/regressions/
 for s in $SEEDS; do for id in $IDS; do
-  out=$(cd /verif && VERIF_SEED=$s VERIF_DIR_OVERRIDE=/tmp/mut/sweep ./check $id quick 2>&1); code=$?
+  out=$(cd "${VERIF_HOME:-/verif}" && VERIF_SEED=$s VERIF_DIR_OVERRIDE=/tmp/mut/sweep ./check $id quick 2>&1); code=$?
   echo "seed=$s $id exit=$code $(echo "$out" | tail -1 | sed 's/.*evaluations/evaluations/')"
   [ $code -ne 0 ] && echo "$out" | grep -E "VIOLATION|signature|INCONCLUSIVE" | head -5
 done; done
